@@ -136,6 +136,8 @@ package pointindex
 //@   ensures[C09] result != nil ==> typeIs(result, "pointindex.OutsideGridError")
 //@   ensures idxOK(ix)
 //@   ensures result == nil ==> forall(a, 0, len(polygon), len(polygon[a]) > 0 ==> rootStored(ix))
+//@   ensures idxOK(ix)
+//@   ensures result == nil ==> forall(a, 0, len(polygon), len(polygon[a]) > 0 ==> rootStored(ix))
 
 // ---------------------------------------------------------------------------------------------
 // C02: the pixel test. "meets" is existential (exists t. meetsAt(l, e, t)); a positive answer supplies a witness,
@@ -317,6 +319,12 @@ package pointindex
 //@     && bbOK(tms) && bbMaxX(tms) - bbMinX(tms) >= pow2(tmLevel(tms, id)) && bbMaxY(tms) - bbMinY(tms) >= 1
 //@ macro indexable(tms, id) = hasKey(tms.TileMatrices, 0) && rootOK(tms, id)
 //@ macro indexableIf0(tms, id) = hasKey(tms.TileMatrices, 0) ==> rootOK(tms, id)
+// the grid in terms of the tile matrix set (what a caller of SnapPolygon can state before an index exists)
+//@ macro tmsGridSpan(tms, id) = pow2(tmLevel(tms, id)) * ((bbMaxX(tms) - bbMinX(tms)) / pow2(tmLevel(tms, id)))
+//@ macro tmsInGrid(tms, id, pt) = bbMinX(tms) <= trunc(pt[0] * 10000000000) && trunc(pt[0] * 10000000000) < bbMinX(tms) + tmsGridSpan(tms, id)
+//@     && bbMinY(tms) <= trunc(pt[1] * 10000000000) && trunc(pt[1] * 10000000000) < bbMinY(tms) + tmsGridSpan(tms, id)
+//@ macro allInGridT(tms, id, polygon) = forall(a, 0, len(polygon), forall(b, 0, len(polygon[a]), tmsInGrid(tms, id, polygon[a][b])))
+//@ macro tmsRound(tms, id) = bbMaxX(tms) == bbMinX(tms) + tmsGridSpan(tms, id) && bbMaxY(tms) == bbMinY(tms) + tmsGridSpan(tms, id)
 //@ func FromTileMatrixSet
 //@   prelude arith tmsaxis morton
 //@   requires indexable(tileMatrixSet, deepestTMID)
@@ -329,6 +337,9 @@ package pointindex
 //@   ensures[C03,C02] result1 == nil ==> indexGrid(result0)
 //@   ensures[C03,C08] result1 == nil ==> result0.deepestLevel == level && result0.deepestSize == pow2(level) && result0.deepestRes == res
 //@   ensures[C03] result1 == nil ==> result0.intExtent == arr(bbMinX(tileMatrixSet), bbMinY(tileMatrixSet), bbMaxX(tileMatrixSet), bbMaxY(tileMatrixSet))
+//@   ensures result1 == nil ==> !isNil(result0.hitOnce) && !isNil(result0.hitMultiple)
+//@   ensures[C09] result1 == nil ==> gridSpan(result0) == tmsGridSpan(tileMatrixSet, deepestTMID) using post(5)
+//@   ensures[C02] result1 == nil && tmsRound(tileMatrixSet, deepestTMID) ==> roundGrid(result0) using post(6); post(8)
 //@   ensures[C03] result1 == nil ==> result0.z == 0 && result0.intCentroid == arr(result0.intExtent[0] + hfloor(pixSpan(result0, 0)), result0.intExtent[1] + hfloor(pixSpan(result0, 0)))
 
 // DeviationStats: formats a report; what matters to validation is that it does not panic and fails when matrix 0
